@@ -57,8 +57,8 @@ Dim(k, c) ==
     [] k = 6  -> <<"schg", {}>>     \* vector dimension
     [] k = 7  -> <<"div", IF HasPB(c) THEN DivSet
                           ELSE IF HasSub(c) /\ DivSet \cap {"cycle", "collide"} # {} THEN DivSet \cap {"none", "cycle", "collide"} ELSE {"none"}>>
-    [] k = 8  -> <<"newpage", IF HasPB(c) THEN (IF c.div = "nullkey" THEN {TRUE} ELSE NewPageSet) ELSE {FALSE}>>
-    [] k = 9  -> <<"pbrow", IF HasPB(c) /\ c.newpage /\ c.div # "nullkey" THEN PbRowSet ELSE {"column"}>>
+    [] k = 8  -> <<"newpage", IF HasPB(c) THEN (IF c.div \in {"nullkey", "padkey"} THEN {TRUE} ELSE NewPageSet) ELSE {FALSE}>>
+    [] k = 9  -> <<"pbrow", IF HasPB(c) /\ c.newpage /\ c.div \notin {"nullkey", "padkey"} THEN PbRowSet ELSE {"column"}>>
     [] k = 10 -> <<"pbhdr", PbHdrSet>>
     [] k = 11 -> <<"nrow", NrowSet>>
     [] k = 12 -> <<"hdr", HdrSet>>
